@@ -50,16 +50,19 @@ Definition perror_span (e : perror) : span :=
   | PEUnclosedEntity _ p | PENoElementAtTopLevel p | PEXmlParser p => {| sp_start := p; sp_end := p |}
   end.
 
-Inductive bres (A : Type) := BOk (a : A) | BErr (e : perror) | BPanic.
+(* BPanic: an unwrap / expect of src/parse.rs itself;  BFull: a registration panicked because an interning table is full
+   (the checked id conversion of C08, `registration_panics_only_when_full`) — both unwind in the crate *)
+Inductive bres (A : Type) := BOk (a : A) | BErr (e : perror) | BPanic | BFull.
 Arguments BOk {A} a.
 Arguments BErr {A} e.
 Arguments BPanic {A}.
+Arguments BFull {A}.
 
 Definition bbind {A B} (x : bres A) (f : A -> bres B) : bres B :=
-  match x with BOk a => f a | BErr e => BErr e | BPanic => BPanic end.
+  match x with BOk a => f a | BErr e => BErr e | BPanic => BPanic | BFull => BFull end.
 Notation "'do' x <- a ; b" := (bbind a (fun x => b)) (at level 200, x pattern, a at level 100, b at level 200).
 
-Definition of_res {A} (r : res A) : bres A := match r with ROk a => BOk a | RPanic => BPanic end.
+Definition of_res {A} (r : res A) : bres A := match r with ROk a => BOk a | RPanic => BFull end.
 
 (* SpanInfoKey *)
 Inductive skey :=
@@ -382,6 +385,21 @@ Section WithBuiltins.
     match ts with
     | [] => BOk st
     | t :: ts' => do st1 <- bstep st t; brun st1 ts'
+    end.
+
+  (* the shape xmlparser gives its token stream: attributes and the end of a start tag occur only inside a start tag, and
+     nothing else does (a tokenizer error may come anywhere and ends the stream) *)
+  Fixpoint stream_shape (intag : bool) (ts : list ptoken) : bool :=
+    match ts with
+    | [] => true
+    | t :: ts' =>
+        match t with
+        | TkError _ => true
+        | TkElementStart _ _ => negb intag && stream_shape true ts'
+        | TkAttribute _ _ _ => intag && stream_shape true ts'
+        | TkEndOpen _ | TkEndEmpty _ => intag && stream_shape false ts'
+        | _ => negb intag && stream_shape false ts'
+        end
     end.
 
   (* the parsed tree, its span information and its xml:id index *)
